@@ -1215,6 +1215,7 @@ func (s *TxStore) RemoveRelevantTx(tx mwdb.DBTransaction, addrmgr *keystore.Addr
 	nsUnmined := tx.FetchBucket(s.bucketMeta.nsUnmined)
 	nsBlocks := tx.FetchBucket(s.bucketMeta.nsBlocks)
 	nsTxRecords := tx.FetchBucket(s.bucketMeta.nsTxRecords)
+	nsDebits := tx.FetchBucket(s.bucketMeta.nsDebits)
 
 	// unmined tx
 	unminedHashes, err := s.utxoStore.removeRelevantUnminedCredit(tx, scriptHashSet)
@@ -1294,6 +1295,26 @@ func (s *TxStore) RemoveRelevantTx(tx mwdb.DBTransaction, addrmgr *keystore.Addr
 		removable, err := s.removableTxForRemoveWallet(msgtx, scriptHashSet)
 		if err != nil {
 			return nil, false, err
+		}
+		if removable {
+			// the debits of the removed wallet are gone by now; a debit that is left belongs
+			// to another wallet, which still needs this record to undo the spend on a reorg
+			height, blkHash, err := readTxRecordKey(item.Key)
+			if err != nil {
+				return nil, false, err
+			}
+			blk := &BlockMeta{Height: height}
+			copy(blk.Hash[:], blkHash)
+			for i := range msgtx.TxIn {
+				debKey, _, err := existsDebit(nsDebits, &txHash, uint32(i), blk)
+				if err != nil {
+					return nil, false, err
+				}
+				if debKey != nil {
+					removable = false
+					break
+				}
+			}
 		}
 		if removable {
 			err = nsTxRecords.Delete(item.Key)
